@@ -54,6 +54,14 @@ def holds(cond, observed):
         return x != cond['ne']
     if 'len' in cond:
         return isinstance(x, list) and len(x) == cond['len']
+    if 'names_ne' in cond:      # witness form: the list of names DIFFERS from the expected one
+        return not (isinstance(x, list) and sorted(e.get('name') if isinstance(e, dict) else e for e in x) == sorted(cond['names_ne']))
+    if 'seq_ne' in cond:        # witness form: the value (order included) differs from the expected one
+        return x != cond['seq_ne']
+    if 'differs_from' in cond:  # witness form: two observations that the property says agree, differ
+        o = cond['differs_from']
+        ov = [ob['value'] for ob in observed if ob.get('label') == o['label']]
+        return bool(ov) and ov[-1] != 'PANIC' and x != get(ov[-1], o.get('path'))
     if 'names' in cond:
         return isinstance(x, list) and sorted(e.get('name') if isinstance(e, dict) else e for e in x) == sorted(cond['names'])
     if 'contains_name' in cond:
@@ -86,7 +94,11 @@ def run_scenarios(paths):
     for q, r in zip(paths, res):
         sc = json.load(open(os.path.join(VERIF, q)))
         conds = sc.get('defect_when', [])
-        out[q] = {'reproduces': bool(conds) and all(holds(c, r['observed']) for c in conds), 'observed': r['observed']}
+        # defect_when: every condition holds (a known finding's signature); defect_when_any: one of them holds (a witness
+        # input: any listed deviation from the answer the property prescribes)
+        anyc = sc.get('defect_when_any', [])
+        out[q] = {'reproduces': (bool(conds) and all(holds(c, r['observed']) for c in conds))
+                                or any(holds(c, r['observed']) for c in anyc), 'observed': r['observed']}
     return out
 
 
